@@ -445,6 +445,40 @@ def live_mutations(module, fn):
         base = alias.get(name, (name, False))[0]
         return {base} | {k for k, v in alias.items() if v[0] == base} | {name}
 
+    _DIAG = {"print", "warn", "debug", "info", "warning", "error", "exception", "log", "log_msg", "write", "critical"}
+
+    def is_diag_call(x):
+        return isinstance(x, ast.Call) and ((isinstance(x.func, ast.Name) and x.func.id in _DIAG) or (isinstance(x.func, ast.Attribute) and x.func.attr in _DIAG))
+
+    def diag_only(names, after, depth=0):
+        """every later use of `names` serves a log line only: it stands in a print / logger call, in a test that guards nothing but such calls, or in
+        an assignment to a name for which the same holds"""
+        for nm, ln, nd in loads:
+            if nm not in names or ln <= after:
+                continue
+            stx = stmt_of(nd)
+            if stx is None:
+                return False
+            if isinstance(stx, ast.Expr) and is_diag_call(stx.value):
+                continue
+            def body_ok(b):
+                if (isinstance(b, ast.Expr) and is_diag_call(b.value)) or isinstance(b, ast.Pass):
+                    return True
+                if isinstance(b, ast.Assign) and len(b.targets) == 1 and isinstance(b.targets[0], (ast.Name, ast.Tuple)) and depth < 3:
+                    tg_ = {t.id for t in ast.walk(b.targets[0]) if isinstance(t, ast.Name)}
+                    return bool(tg_) and not (tg_ & params) and diag_only(tg_, getattr(b, "end_lineno", b.lineno), depth + 1)
+                if isinstance(b, ast.If):
+                    return all(body_ok(x) for x in b.body + b.orelse)
+                return False
+            if isinstance(stx, ast.If) and any(y is nd for y in ast.walk(stx.test)) and all(body_ok(b) for b in stx.body + stx.orelse):
+                continue
+            if isinstance(stx, ast.Assign) and len(stx.targets) == 1 and isinstance(stx.targets[0], (ast.Name, ast.Tuple)) and depth < 3:
+                tg = {t.id for t in ast.walk(stx.targets[0]) if isinstance(t, ast.Name)}
+                if tg and not (tg & params) and diag_only(tg, getattr(stx, "end_lineno", stx.lineno), depth + 1):
+                    continue
+            return False
+        return True
+
     findings, undecided, examined = [], [], 0
     for c in nodes:
         if not isinstance(c, ast.Call):
@@ -476,7 +510,8 @@ def live_mutations(module, fn):
                                          + (f" (line {u.lineno})" if u is not None else " (it is the caller's array)")))
                         continue
                 u = used_after(fam, c, end)
-                if u is not None and name not in params:
+                fresh_private = isinstance(target, ast.Name) and name not in alias and name not in params
+                if u is not None and name not in params and not (fresh_private and diag_only({name}, end)):
                     undecided.append((c, "reordered", f"`{_txt(target)}` is reordered in place and used afterwards (line {u.lineno})"))
         # (2) overwrite_input=True
         ow = [k for k in c.keywords if k.arg == "overwrite_input" and isinstance(k.value, ast.Constant) and k.value.value is True]
@@ -558,6 +593,73 @@ def live_mutations(module, fn):
                 if u is not None or base in params:
                     undecided.append((n, "view-updated", f"`{_txt(n)}` works on `{_txt(d[-1].value)}`, which is a view of `{base}` whenever no copy is needed: `{base}` "
                                       "changes with it and is used afterwards"))
+    # (7) two parts of one array exchanged through views: `a[:, 1], a[:, 2] = a[:, 2], a[:, 1]` -- the right-hand sides are views, the first
+    #     store destroys what the second one still needs
+    for n in nodes:
+        if isinstance(n, ast.Assign) and len(n.targets) == 1 and isinstance(n.targets[0], ast.Tuple) and isinstance(n.value, ast.Tuple) \
+                and len(n.targets[0].elts) == len(n.value.elts) >= 2 and all(isinstance(t, ast.Subscript) for t in n.targets[0].elts):
+            examined += 1
+            tr = [_root(t) for t in n.targets[0].elts]
+            vr = [(_root(v) if isinstance(v, ast.Subscript) else None) for v in n.value.elts]
+            if all(r is not None for r in tr) and all(r is not None for r in vr) and len({r[0] for r in tr + vr}) == 1 and all(r[1] for r in tr + vr) \
+                    and [_txt(t) for t in n.targets[0].elts] != [_txt(v) for v in n.value.elts]:
+                findings.append((n, "swap-through-views", f"`{_txt(n)[:90]}`: the right-hand sides are views of `{tr[0][0]}`, not copies; the first store overwrites "
+                                 "the part the second store still reads, so one part ends up twice and the other is lost"))
+    # (8) in-place arithmetic / element stores through a name that IS another live array (plain alias `x = y`) or a basic-slicing view of it
+    def arrayish(name):
+        for x in nodes:
+            if isinstance(x, ast.Subscript) and isinstance(x.value, ast.Name) and x.value.id == name and isinstance(x.slice, (ast.Slice, ast.Tuple)):
+                return True
+            if isinstance(x, ast.Attribute) and isinstance(x.value, ast.Name) and x.value.id == name and x.attr in ("shape", "T", "dtype", "mean", "sum", "reshape", "astype", "ndim", "size", "max", "min"):
+                return True
+        return False
+    for n in nodes:
+        if isinstance(n, ast.AugAssign) and isinstance(n.target, ast.Name) and n.target.id in alias:
+            nm = n.target.id
+            d = [a for a in assigns if a.targets[0].id == nm and a.lineno < n.lineno]
+            if not d:
+                continue
+            dv = d[-1].value
+            base, part = alias[nm]
+            if isinstance(dv, ast.Call):
+                continue  # (6) handles ravel / reshape views
+            examined += 1
+            u = used_after(family(nm) - {nm}, n, getattr(n, "end_lineno", n.lineno))
+            if u is None and base not in params:
+                continue
+            if isinstance(dv, ast.Name) and (arrayish(base) or arrayish(nm)):
+                findings.append((n, "alias-updated", f"`{nm}` is the array `{base}` itself (`{_txt(d[-1])}` makes no copy): `{_txt(n)[:60]}` changes `{base}`, which is used "
+                                 f"afterwards" + (f" (line {u.lineno})" if u is not None else " (the caller's array)")))
+            elif isinstance(dv, ast.Subscript) and (any(isinstance(i_, ast.Slice) for i_ in (dv.slice.elts if isinstance(dv.slice, ast.Tuple) else [dv.slice]))
+                                                    or any(isinstance(x, ast.Subscript) and isinstance(x.value, ast.Name) and x.value.id == base and isinstance(x.slice, ast.Tuple)
+                                                           for x in nodes)
+                                                    or any(isinstance(x, ast.Call) and isinstance(x.func, ast.Attribute) and x.func.attr in ("KDTree", "cKDTree") and x.args
+                                                           and isinstance(x.args[0], ast.Name) and x.args[0].id == base for x in nodes)):
+                # basic slicing, or one index into an array that is indexed with several elsewhere (a row of a 2-D array): a view, not a copy
+                undecided.append((n, "view-updated", f"`{_txt(n)[:60]}` works on `{_txt(dv)[:40]}`, a view / alias of `{base}`: `{base}` changes with it and is used afterwards"))
+    # (8b) element stores through a slice view of a buffer that lives longer than the view (allocated before the loop the view is taken in)
+    for n in nodes:
+        if isinstance(n, ast.Assign) and len(n.targets) == 1 and isinstance(n.targets[0], ast.Subscript) and isinstance(n.targets[0].value, ast.Name) \
+                and n.targets[0].value.id in alias:
+            nm = n.targets[0].value.id
+            d = [a for a in assigns if a.targets[0].id == nm and a.lineno < n.lineno]
+            if not d or not isinstance(d[-1].value, ast.Subscript):
+                continue
+            dv = d[-1].value
+            if not any(isinstance(i_, ast.Slice) for i_ in (dv.slice.elts if isinstance(dv.slice, ast.Tuple) else [dv.slice])):
+                continue
+            base = alias[nm][0]
+            bdefs = [a for a in assigns if a.targets[0].id == base]
+            lp_v = [lp for lp in loops if lp.lineno <= d[-1].lineno <= getattr(lp, "end_lineno", lp.lineno)]
+            if lp_v and bdefs and all(b.lineno < lp_v[0].lineno for b in bdefs):
+                examined += 1
+                undecided.append((n, "view-updated", f"`{_txt(n)[:60]}` stores through `{nm}`, a slice of `{base}`, which is allocated before the loop (line {bdefs[-1].lineno}) and "
+                                  "keeps what every iteration writes: later iterations see the earlier ones' stores"))
+    # (9) state kept on the object behind the attribute table (`self.__dict__`, setattr / vars): a cache the instance-attribute rules do not see
+    for n in nodes:
+        if (isinstance(n, ast.Attribute) and n.attr == "__dict__") or (isinstance(n, ast.Call) and isinstance(n.func, ast.Name) and n.func.id in ("setattr", "vars") and n.args):
+            examined += 1
+            undecided.append((n, "hidden-attribute", f"`{_txt(n)[:60]}`: state kept on an object through its attribute table; what a later call finds there is not followed"))
     return findings, undecided, examined
 
 
